@@ -192,6 +192,19 @@ def gen_cases(rng, tier):
             calls.append((g, pat, subject))
         if tier == "thorough" or rng.random() < 0.3:
             calls.append(("sub", pat, [2], subject))
+    # failure-table core (enumerated, independent of the random stream): patterns whose longest border itself has a border
+    # (x^k y rest, k = 3..4): a matcher that falls back only one border step after a mismatch pre-approves text that is not
+    # there.  subject = the pattern up to and including the mismatching symbol, continued with the pattern from position j
+    for k in (3, 4):
+        for rest_n in (1, 2):
+            for rest in itertools.product(range(2), repeat=rest_n):
+                for x in (0, 1):
+                    pat = [x] * k + [1 - x] + [(1 - x) if r else x for r in rest]
+                    for j in (1, 2):
+                        subject = pat[:k + 1] + pat[j:]
+                        calls.append(("contains", pat, subject))
+                        calls.append(("split", pat, subject))
+                        calls.append(("sub", pat, [2], subject))
     # self-overlap corpus (minimised past failures run first)
     corpus = [("contains", [0, 0, 1], [0, 0, 0, 1]), ("has_suffix", [2, 1], [0, 1, 1]), ("split", [0, 0, 1], [0, 0, 0, 1, 1]),
               ("sub", [0, 0, 1], [2], [0, 0, 0, 1, 0]), ("trim_suffix", [2, 1], [0, 1, 1]), ("has_suffix", [0, 1], [1]),
